@@ -3,7 +3,8 @@
 # exit 0: held on everything explored; exit 1: VIOLATION lines were printed.
 id="$1"; tier="${2:-quick}"
 export GOFLAGS=-mod=mod GOPROXY=off GOSUMDB=off GOTOOLCHAIN=local
-/verif/bin/govc check -p "$id" -tier "$tier"
+EV=""; if [ -n "$VERIF_NOEVIDENCE" ]; then EV="-noevidence"; fi
+/verif/bin/govc check -p "$id" -tier "$tier" $EV
 rc=$?
 if [ $rc -gt 1 ]; then exit $rc; fi
 python3 /verif/tools/bounded.py "$id" "$tier"
